@@ -15,9 +15,9 @@ exclusive, the second helper finds the marker at its re-check), `stale_helper_is
 `rw_generation_invariant` (`Proto/BinN`'s whole `GenInv` — `follow_markers_until_live`, … — for the readers
 and writers in the presence of helpers), `alloc_commit_abs_invariant`.
 
-**Validated by execution, not proved** (see `Lemmas/BinNHExamples.lean` and the report): linearizability
-(`binNH_linearizable_quiescent`) and the full `transfer_abs_invariant` need `Proto/BinN`'s heap invariant
-`HInv` with its single ghost "cell in mid-transfer" generalised to one per helper; that port is not done. -/
+**Linearizability** (`binNH_linearizable_quiescent`) and the full `transfer_abs_invariant` (incl. the split and the
+three stores) are proved in `Props/C01BinNHLin.lean` (heap invariant with one mid-transfer cell per helper,
+`Lemmas/BinNHM*.lean`, `Lemmas/BinNHFull*.lean`); validation by execution: `Lemmas/BinNHExamples.lean`. -/
 namespace Flurry.Proto.BinNH
 open Flurry.Lin
 open Flurry.Proto.BinX (NodeS Cell Pending cellOfHead)
